@@ -44,14 +44,22 @@ theorem serve_repair_order :
 the repair is complete before Serve starts to serve -/
 theorem serve_repair_is_synchronous : serveCalls.all (fun c => !c.2.1) = true := by decide +kernel
 
-/-- the gating the model's `restartWith`/`restart` has: the manifest check and the prune only without
-OLLAMA_NOPRUNE, the prune only in the else-branch of a failed `Manifests(false)` -/
+def hasPrefix (s pre : String) : Bool := isPrefixL pre.toList s.toList
+
+/-- the gating the model's `restartWith`/`restart` has, stated on NORMALISED guards (round 7: the text of the
+conditions, the names of the error variables, `if c {…} else {…}` versus an early return, and whether the repair
+sits in Serve itself or in a helper it calls are not facts the property depends on): `fixBlobs` runs
+unconditionally; the manifest check and the prune are reached only when OLLAMA_NOPRUNE is not set; the prune is
+reached under strictly more conditions than the manifest check (it depends on its outcome — WHICH outcome is
+compared by behaviour: L1 `restarted` lines on stores with an unparseable manifest, and the crash states that go
+through the real Serve). -/
 theorem serve_repair_gating :
     serveCalls.all (fun c =>
-      (!is c.1 "Manifests" || contains c.2.2 "!envconfig.NoPrune()") &&
-      ((!is c.1 "PruneLayers" && !is c.1 "PruneDirectory") ||
-        (contains c.2.2 "!envconfig.NoPrune()" && contains c.2.2 "else-of" && contains c.2.2 "Manifests(false); err != nil")) &&
-      (!is c.1 "fixBlobs" || c.2.2.toList.isEmpty)) = true := by
+      (!(is c.1 "Manifests" || is c.1 "PruneLayers" || is c.1 "PruneDirectory") ||
+        c.2.2.any (fun g => hasPrefix g "noprune-off:")) &&
+      (!(is c.1 "PruneLayers" || is c.1 "PruneDirectory") ||
+        serveCalls.all (fun m => !is m.1 "Manifests" || decide (m.2.2.length < c.2.2.length))) &&
+      (!is c.1 "fixBlobs" || c.2.2.isEmpty)) = true := by
   decide +kernel
 
 end OllamaVerif.Tie.C12
